@@ -6,11 +6,14 @@ Operational semantics of the API skeletons of `Model/ApiIR.lean` (C10, C19).
   first).  "The circuit is left equal" is `st' = st`: no member was written and the flag is as before.
 * `exec` runs a statement list.  Exceptions (`thrown`) propagate; `scopeGuard` sets the flag,
   runs the rest of the function and clears the flag whatever the outcome (RAII destructor /
-  catch-all + rethrow).  `assertC` that fails gives `aborted` (assertion-enabled build).
-* The body of a placement call contains `call stage`.  A stage is an arbitrary trace: a list of
-  callback invocations, each running any sequence of `Circuit` setters (with any arguments; an
-  exception of a setter is caught by the callback or not — both are traces) and possibly throwing;
-  after any prefix of callbacks the stage itself may throw (`Stage.throws`).
+  catch-all + rethrow); `restoreGuard` does the same but puts back the value the flag had on entry
+  (re-entrant guard).  `assertC` that fails gives `aborted` (assertion-enabled build).
+* The body of a placement call contains `call stage`.  A stage is an arbitrary trace `Tr`: callback
+  invocations, each running any sequence of `Circuit` setters (with any arguments) and of *nested
+  placement calls* on the same circuit (whose own stage is again an arbitrary trace, to any depth); an
+  exception of a setter or of a nested call is caught by the callback or not — both are traces
+  (`cbEnd true` = the callback ends by throwing); after any prefix of callbacks the stage itself may
+  throw (`done true`).
 * Parameter constructors are event lists run by `runCtor`; placer entry points by `runEntry`.
 Core Lean only.
 -/
@@ -86,6 +89,9 @@ def Res.andThen (r : Res) (k : St → Res) : Res :=
 /-- leaving a guarded scope: the flag is cleared on every exit path -/
 def Res.release (r : Res) : Res := ⟨r.out, { r.st with inUse := false }, r.log⟩
 
+/-- leaving a re-entrant guarded scope: the flag gets back the value `b` it had on entry -/
+def Res.restore (r : Res) (b : Bool) : Res := ⟨r.out, { r.st with inUse := b }, r.log⟩
+
 def exec (onCall : String → St → Res) (env : Env) : List Stmt → St → Res
   | [], st => ⟨.normal, st, []⟩
   | .throwIf c :: rest, st => if Cond.eval env 0 c then ⟨.thrown, st, []⟩ else exec onCall env rest st
@@ -95,6 +101,7 @@ def exec (onCall : String → St → Res) (env : Env) : List Stmt → St → Res
   | .setInUse b :: rest, st => exec onCall env rest { st with inUse := b }
   | .call f :: rest, st => (onCall f st).andThen (fun s => exec onCall env rest s)
   | .scopeGuard :: rest, st => (exec onCall env rest { st with inUse := true }).release
+  | .restoreGuard :: rest, st => (exec onCall env rest { st with inUse := true }).restore st.inUse
   | .ret :: _, st => ⟨.returned, st, []⟩
   | .assertC c :: rest, st => if Cond.eval env 0 c then exec onCall env rest st else ⟨.aborted, st, []⟩
   | .paramsCheck :: rest, st => exec onCall env rest st
@@ -108,14 +115,12 @@ structure SetterCall where
   env : Env
   deriving Repr
 
-structure Callback where
-  acts : List SetterCall
-  throws : Bool
-  deriving Repr
-
-structure Stage where
-  cbs : List Callback
-  throws : Bool
+/-- What a stage does, as a trace.  Everything between two `cbEnd`s happens inside one callback. -/
+inductive Tr where
+  | done (throws : Bool)                            -- the stage ends: by return, or by its own exception
+  | setter (sc : SetterCall) (k : Tr)               -- (in a callback) a setter is called, then `k`
+  | nested (name : String) (inner : Tr) (k : Tr)    -- (in a callback) a placement call on the same circuit whose stage does `inner`, then `k`
+  | cbEnd (throws : Bool) (k : Tr)                  -- the callback ends: normally (the stage goes on with `k`) or by throwing
   deriving Repr
 
 def showOutcome : Outcome → String
@@ -137,29 +142,46 @@ def runSetter (tbl : List FnDef) (sc : SetterCall) (st : St) : Res :=
   | some f => exec noCall sc.env f.body st
   | none => ⟨.stuck, st, []⟩
 
-/-- The setter calls of one callback; an exception thrown by a setter is absorbed (the callback
-catches it or ends — the callback's own `throws` covers the latter); an abort ends everything. -/
-def runActs (tbl : List FnDef) : List SetterCall → St → Res
-  | [], st => ⟨.normal, st, []⟩
-  | a :: rest, st =>
-    match (runSetter tbl a st).out with
-    | .aborted => ⟨.aborted, (runSetter tbl a st).st, [setterLine a.name st (runSetter tbl a st)]⟩
-    | .stuck => ⟨.stuck, (runSetter tbl a st).st, [setterLine a.name st (runSetter tbl a st)]⟩
-    | _ => ⟨(runActs tbl rest (runSetter tbl a st).st).out, (runActs tbl rest (runSetter tbl a st).st).st,
-            setterLine a.name st (runSetter tbl a st) :: (runActs tbl rest (runSetter tbl a st).st).log⟩
+/-- how a call ended, as printed by both sides -/
+def showEnd : Outcome → String
+  | .normal => "ok"
+  | .returned => "ok"
+  | .thrown => "throw"
+  | .aborted => "abort"
+  | .stuck => "stuck"
 
-def runCallbacks (tbl : List FnDef) : List Callback → St → Res
-  | [], st => ⟨.normal, st, []⟩
-  | cb :: rest, st =>
-    (runActs tbl cb.acts st).andThen (fun s =>
-      if cb.throws then ⟨.thrown, s, []⟩ else runCallbacks tbl rest s)
+/-- The line both sides print when a placement call has ended: how, and the in-use flag right after. -/
+def endLine (r : Res) : String :=
+  "end " ++ showEnd r.out ++ " inuse=" ++ (if r.st.inUse then "1" else "0")
 
-def runStage (tbl : List FnDef) (sg : Stage) (st : St) : Res :=
-  (runCallbacks tbl sg.cbs st).andThen (fun s => if sg.throws then ⟨.thrown, s, []⟩ else ⟨.normal, s, []⟩)
+/-- Inside a callback: after an action (setter, nested placement call) whose exception, if any, is
+absorbed (the callback catches it, or ends by throwing — `cbEnd true` covers the latter), log `line`
+and go on with `k`; an abort ends everything. -/
+def Res.absorbThen (r : Res) (line : String) (k : St → Res) : Res :=
+  match r.out with
+  | .aborted => ⟨.aborted, r.st, r.log ++ [line]⟩
+  | .stuck => ⟨.stuck, r.st, r.log ++ [line]⟩
+  | _ => ⟨(k r.st).out, (k r.st).st, r.log ++ line :: (k r.st).log⟩
 
-/-- A placement call with body `body`, its stage behaving as the trace `sg`. -/
-def execPlacement (setters : List FnDef) (body : List Stmt) (sg : Stage) (st : St) : Res :=
-  exec (fun _ s => runStage setters sg s) emptyEnv body st
+/-- Run a function of `pcs` whose `call` statements behave as `stage`. -/
+def runCall (pcs : List FnDef) (name : String) (stage : St → Res) (st : St) : Res :=
+  match lookup pcs name with
+  | some f => exec (fun _ s => stage s) emptyEnv f.body st
+  | none => ⟨.stuck, st, []⟩
+
+/-- A stage behaving as the trace `t`; `tbl` = the setters, `pcs` = the placement calls (for nested calls). -/
+def runTr (tbl pcs : List FnDef) : Tr → St → Res
+  | .done thr, st => ⟨if thr then .thrown else .normal, st, []⟩
+  | .setter sc k, st =>
+    (runSetter tbl sc st).absorbThen (setterLine sc.name st (runSetter tbl sc st)) (fun s => runTr tbl pcs k s)
+  | .nested name inner k, st =>
+    (runCall pcs name (fun s => runTr tbl pcs inner s) st).absorbThen
+      (endLine (runCall pcs name (fun s => runTr tbl pcs inner s) st)) (fun s => runTr tbl pcs k s)
+  | .cbEnd thr k, st => if thr then ⟨.thrown, st, []⟩ else runTr tbl pcs k st
+
+/-- A placement call with body `body`, its stage behaving as the trace `t`. -/
+def execPlacement (tbl pcs : List FnDef) (body : List Stmt) (t : Tr) (st : St) : Res :=
+  exec (fun _ s => runTr tbl pcs t s) emptyEnv body st
 
 /-! ### static conditions used by the theorems (decidable on the generated tables) -/
 
@@ -169,9 +191,10 @@ def guardFirst : List Stmt → Bool
   | .throwIf _ :: rest => guardFirst rest
   | _ => false
 
-/-- the body starts by taking the scope guard -/
+/-- the body starts by taking a scope guard (of either kind) -/
 def guardedFirst : List Stmt → Bool
   | .scopeGuard :: _ => true
+  | .restoreGuard :: _ => true
   | _ => false
 
 /-- The conditions of the `throwIf`s that are reached before anything that writes, returns, asserts
